@@ -99,6 +99,21 @@ def execute(backend, seq, h, n=2):
             result = eng.run(prog)
             st = result.state
             out = observe(backend, st, h) if n == 2 else observe1(backend, st, h)
+            # a state object carries the hbar it was computed with: reading it again after the global setting moved on must
+            # give the same numbers (otherwise its quadrature results scale with a mixture of two conventions)
+            sf.hbar = 2.0 if abs(h - 2.0) > 1e-9 else 0.7
+            try:
+                later = observe(backend, st, h) if n == 2 else observe1(backend, st, h)
+            finally:
+                sf.hbar = h
+            moved = None
+            for key, v in out.items():
+                if key[0].startswith("__"):
+                    continue
+                a_, b_ = np.asarray(v, dtype=float), np.asarray(later.get(key), dtype=float)
+                if a_.shape != b_.shape or (a_.size and np.max(np.abs(a_ - b_)) > 1e-9 * max(1.0, float(np.max(np.abs(a_))))):
+                    moved = key
+                    break
             smp = np.asarray(result.samples)
             if smp.size:
                 out[("samples/s",)] = np.real(np.asarray(smp, dtype=complex)).ravel() / s_of(h)
@@ -131,6 +146,7 @@ def execute(backend, seq, h, n=2):
                     diff = key
                     break
             out[("__rerun__",)] = diff
+            out[("__read_later__",)] = moved
     finally:
         sf.hbar = old
     return out
@@ -243,6 +259,8 @@ def check(backend, seq, res, n=2):
             continue
         if got[("__mutated__",)]:
             res.violation(f"C15|query-mutates-state|{backend}", f"querying the state of [{fmt(seq)}] changed its data at hbar = {h}", dict(case, hbar=h))
+        if got.get(("__read_later__",)) is not None:
+            res.violation(f"C15|read-after-hbar-change|{got[('__read_later__',)][0]}|{backend}", f"[{fmt(seq)}] on {backend}, computed at hbar = {h}: {got[('__read_later__',)]} of the returned state changes when it is read after sf.hbar was set to another value", dict(case, hbar=h))
         if got.get(("__rerun__",)) is not None:
             res.violation(f"C15|second-execution-differs|{backend}|{'+'.join(sorted(set(dim))) or 'dimensionless'}", f"[{fmt(seq)}] on {backend} at hbar = {h}: executing the same Program object a second time on a fresh engine changes {got[('__rerun__',)]}", dict(case, hbar=h))
         for key, b in base.items():
